@@ -2,20 +2,20 @@ SPECIFICATION Spec
 CONSTANTS
   Inst = {1}
   InitUp = {1}
-  Alerts = {"a"}
+  Alerts = {"a", "b"}
   GW = 1
   GI = 3
   RI = 20
   PT = 3
   ST = 0
   MinT = 10
-  Maint = 1000
+  Maint = 4
   MaxDelay = 1
-  Quantum = 4
-  MaxTime = 20
+  Quantum = 3
+  MaxTime = 24
   Rule = "sum"
   Off = {}
-  Lim <- QStop
+  Lim <- SoloKill
 VIEW View
 INVARIANTS AtLeastOnce NoDuplicateWhenHealthy SilenceSurvivesRestart NoRepeatAfterRestart ReadyEventually Sane
 CHECK_DEADLOCK FALSE
